@@ -92,6 +92,8 @@ impl<'a> Normalize<'a> {
             old(self).remaining().len() > 0 ==> (ret matches Some(pr) && 1 <= pr.0@.len() <= 2 && pr.0@.len() <= old(self).remaining().len() && pr.0@ == old(self).remaining().take(pr.0@.len() as int)
                 && final(self).remaining() == old(self).remaining().skip(pr.0@.len() as int)
                 && (pr.1@ == pr.0@ || map_has(old(self).map, pr.0@, pr.1@))),
+            // C02 / C11: WHICH chunk: the longest pattern of the map at the front of the remaining text, else the character itself
+            old(self).remaining().len() > 0 ==> (ret matches Some(pr) && pr.0@.len() == norm_step(old(self).map, old(self).remaining()).0 && pr.1@ == norm_step(old(self).map, old(self).remaining()).1), // [C02 C11]
             final(self).windows.v@.len() < old(self).windows.v@.len() || ret is None,
     {
         let mut window = self.windows.next()?;
@@ -115,6 +117,7 @@ impl<'a> Normalize<'a> {
             invariant __lo0 == 1, __hi0 == window@.len() + 1, 1 <= __len0 <= __hi0, self.windows.wf(), self.windows.size == 2, self.map == old(self).map, self.skip == 0,
                 v0 == old(self).windows.v@, k0 == old(self).skip, k0 <= v0.len(),
                 k0 < v0.len(), self.windows.v@ == v0.skip(k0 + 1), window@ == v0.skip(k0).take(imin(2, v0.len() - k0)),
+                forall|l: int| __len0 <= l < __hi0 ==> !has_key_chars(self.map, #[trigger] window@.take(l)), // [C02 C11]
             decreases __len0,
         {
             __len0 -= 1;
@@ -123,6 +126,11 @@ impl<'a> Normalize<'a> {
             if let Some(replace) = self.map.get(pattern) {
                 self.skip = pattern.len() - 1;
                 proof {
+                    let rem = v0.skip(k0);
+                    assert(map_has(self.map, pattern@, replace@));
+                    lemma_mlook(self.map, pattern@, replace@);
+                    assert(window@.take(__len0 as int) =~= rem.take(__len0 as int));
+                    if __len0 == 1 && rem.len() >= 2 { assert(window@.take(2) =~= rem.take(2)); assert(!has_key_chars(self.map, window@.take(2))); }
                     assert(old(self).remaining() =~= v0.skip(k0));
                     assert(pattern@ =~= v0.skip(k0).take(__len0 as int));
                     assert(self.windows.v@.skip(self.skip as int) =~= v0.skip(k0).skip(__len0 as int));
@@ -131,6 +139,10 @@ impl<'a> Normalize<'a> {
             }
         }
         proof {
+            let rem = v0.skip(k0);
+            assert(window@.take(1) =~= rem.take(1));
+            assert(!has_key_chars(self.map, window@.take(1)));
+            if rem.len() >= 2 { assert(window@.take(2) =~= rem.take(2)); assert(!has_key_chars(self.map, window@.take(2))); }
             assert(old(self).remaining() =~= v0.skip(k0));
             assert(window@.take(1) =~= v0.skip(k0).take(1));
             assert(self.windows.v@.skip(0) =~= v0.skip(k0).skip(1));
@@ -172,19 +184,38 @@ impl Lang {
     pub fn unicode_compose(&mut self, word: &[char]) -> (ret: Option<Vec<char>>)
         ensures final(self).reduce_map == old(self).reduce_map, final(self).compose_map == old(self).compose_map, final(self).pos_map == old(self).pos_map, final(self).char_map == old(self).char_map,
             ret matches Some(v) ==> v@ != word@,
+            // C02 / C11: the composed text is the normalisation of the input under the composition table; None when nothing changes
+            ret matches Some(v) ==> v@ == norm_seq(&old(self).compose_map, word@), // [C02 C11]
+            ret is None ==> norm_seq(&old(self).compose_map, word@) == word@, // [C02 C11]
     {
         let buffer = &mut self.norm_buffer1;
         buffer.clear();
         let mut __it0 = Normalize::new(word, &self.compose_map);
+        let ghost cmap = self.compose_map;
+        let ghost mut n: int = 0;
+        proof { assert(word@.skip(0) =~= word@); }
         loop
-            invariant __it0.wf(),
+            invariant_except_break word@.skip(n) == __it0.remaining(),
+            invariant __it0.wf(), __it0.map == &cmap, cmap == old(self).compose_map, 0 <= n <= word@.len(),
+                norm_seq(&cmap, word@) == buffer@ + norm_seq(&cmap, word@.skip(n)), // [C02 C11]
+            ensures n == word@.len(),
             decreases __it0.windows.v@.len(),
         {
+            let ghost rem0 = __it0.remaining();
+            let ghost buf0 = buffer@;
             match __it0.next() {
                 Some((_, norm_chunk)) => {
                     buffer.extend(norm_chunk);
+                    proof {
+                        let st = norm_step(&cmap, rem0);
+                        assert(norm_seq(&cmap, rem0) == st.1 + norm_seq(&cmap, rem0.skip(st.0)));
+                        assert(rem0.skip(st.0) =~= word@.skip(n + st.0));
+                        assert(buf0 + (st.1 + norm_seq(&cmap, word@.skip(n + st.0))) =~= (buf0 + st.1) + norm_seq(&cmap, word@.skip(n + st.0)));
+                        n = n + st.0;
+                    }
                 }
                 None => {
+                    proof { assert(rem0.len() == 0); assert(n == word@.len()); assert(norm_seq(&cmap, word@.skip(n)) =~= Seq::<char>::empty()); assert(buffer@ + Seq::<char>::empty() =~= buffer@); }
                     break;
                 }
             }
@@ -202,6 +233,9 @@ impl Lang {
             // C15 / C02(b): source and normalised text stay position-aligned; removing the NUL padding gives back the input
             ret matches Some(p) ==> p.0@.len() == p.1@.len(), // [C15 C02 C01]
             ret matches Some(p) ==> p.1@ != word@ && p.0@.filter(not_nul()) == word@.filter(not_nul()),
+            // C02 / C11: the normalised text is the normalisation of the input under the reduction table; None when nothing changes
+            ret matches Some(p) ==> p.1@ == norm_seq(&old(self).reduce_map, word@), // [C02 C11]
+            ret is None ==> norm_seq(&old(self).reduce_map, word@) == word@, // [C02 C11]
     {
         let buffer1 = &mut self.norm_buffer1;
         let buffer2 = &mut self.norm_buffer2;
@@ -216,13 +250,15 @@ impl Lang {
             invariant __it0.wf(), __it0.map == &rmap, rmap == old(self).reduce_map, old(self).wf(),
                 buffer1@.len() == buffer2@.len(), // [C15 C02 C01]
                 0 <= n <= word@.len(), buffer1@.filter(not_nul()) == word@.take(n).filter(not_nul()),
-            ensures n == word@.len(),
+                norm_seq(&rmap, word@) == buffer2@ + norm_seq(&rmap, word@.skip(n)), // [C02 C11]
+            ensures n == word@.len(), norm_seq(&rmap, word@) == buffer2@,
             decreases __it0.windows.v@.len(),
         {
             let ghost rem0 = __it0.remaining();
             match __it0.next() {
                 Some((word_chunk, norm_chunk)) => {
                     let ghost b1 = buffer1@;
+                    let ghost b2 = buffer2@;
                     let ghost l = word_chunk@.len() as int;
                     proof {
                         assert(rem0 == word@.skip(n)); assert(l <= rem0.len());
@@ -250,6 +286,9 @@ impl Lang {
                         lemma_filter_add(word@.take(n), word@.subrange(n, n + l), not_nul());
                         assert(word@.take(n) + word@.subrange(n, n + l) =~= word@.take(n + l));
                         assert(word@.skip(n).skip(l) =~= word@.skip(n + l));
+                        let st = norm_step(&rmap, rem0);
+                        assert(norm_seq(&rmap, rem0) == st.1 + norm_seq(&rmap, rem0.skip(st.0)));
+                        assert(b2 + (st.1 + norm_seq(&rmap, word@.skip(n + l))) =~= (b2 + st.1) + norm_seq(&rmap, word@.skip(n + l)));
                         n = n + l;
                     }
                 }
